@@ -239,6 +239,12 @@ Definition spec_values2 (ax ay : axis) (xs : list (Q * Q * Q)) : list (list Q) :
              (zrange (Z.to_nat (a_bins ay))))
       (zrange (Z.to_nat (a_bins ax))).
 
+Fixpoint zip_add2 (a b : list (list Q)) : list (list Q) :=
+  match a, b with
+  | x :: a', y :: b' => zip_add x y :: zip_add2 a' b'
+  | _, _ => []
+  end.
+
 (* lists of rationals are compared up to Qeq *)
 Definition leq (a b : list Q) : Prop := Forall2 Qeq a b.
 Definition leq2 (a b : list (list Q)) : Prop := Forall2 leq a b.
